@@ -45,7 +45,7 @@ for D in (1, 2, 3):
     all_eq = ' && '.join('g_n%d == g_m%d' % (k, k) for k in range(D))
     nonempty = ' && '.join('g_n%d > 0 && g_m%d > 0' % (k, k) for k in range(D))
     ii = ['g_i%d' % k for k in range(D)]
-    G = ghosts_fn(D) + [(I64, 'g_m%d' % k) for k in range(D)] + [(I64, x) for x in ii]
+    G = ghosts_fn(D) + [(I64, 'g_m%d' % k) for k in range(D)] + [(I64, x) for x in ii] + [('int', 'g_alias')]
     st = [Stub(r'bool std::equal<boost::multi::elements_iterator_t<double const\*, boost::multi::layout_t<%dl, long> >, .*' % D, record=[('g_eq_f1', 0, EIc(D)), ('g_eq_l1', 1, EIc(D)), ('g_eq_f2', 2, EIc(D))], ret='g_eq_ret', count='g_eq_calls'),
           # a comparison of raw storage (not present in the current tree): accepted only where it is the same comparison, see the last postcondition
           Stub(r'bool std::equal<double const\*, double const\*(, std::equal_to<void> )?>\(.*', record=[('g_rq_f1', 0, None, 'ptr'), ('g_rq_l1', 1, None, 'ptr'), ('g_rq_f2', 2, None, 'ptr')], ret='g_rq_ret', count='g_rq_calls', optional=True,
@@ -69,8 +69,11 @@ for D in (1, 2, 3):
                     r'boost::multi::operator%s\(' % E(op) + CSn(1) + ' const&, ' + CSn(1) + r' const&\)',
               wrapper=('bool', 'CS<%d> const* self, CS<%d> const* other' % (D, D), 'return *self %s *other;' % op),
               cxx={'self': SUB(D), 'other': SUB(D)}, ghosts=G, stubs=st, mode='uf',
-              requires=[view_ok('self', D, 'g_n'), view_ok('other', D, 'g_m'), ' && '.join('INR(%s)' % x for x in ii)], lemmas=lemmas(D),
-              ensures=[raw_ok, ('[delegation] equal extents: the element-wise part is delegated to exactly one call of std::equal', 'IMPLIES(%s, g_eq_calls == 1 && g_rq_calls == 0)' % all_eq),
+              requires=[view_ok('self', D, 'g_n'), view_ok('other', D, 'g_m'), ' && '.join('INR(%s)' % x for x in ii), '(g_alias != 0) == (self->base_ == other->base_)'], lemmas=lemmas(D),
+              setup='if(g_alias) other->base_ = self->base_;   /* the two operands may view the same storage (with the same or different strides) */',
+              ensures=[raw_ok, ('equal non-empty extents: no verdict is produced without comparing elements (on a path with no loop and no ISO comparison the verdict cannot depend on the elements)',
+                                'IMPLIES(%s && %s && g_n0 > 2, g_eq_calls + g_rq_calls >= 1)' % (all_eq, nonempty)),
+                       ('[delegation] equal extents: the element-wise part is delegated to exactly one call of std::equal', 'IMPLIES(%s, g_eq_calls == 1 && g_rq_calls == 0)' % all_eq),
                        ('equal extents: std::equal receives the two complete element ranges (canonical order) and its verdict is returned%s' % ('' if pos else ' negated'),
                         'IMPLIES(%s && g_eq_calls == 1, RET == %sg_eq_ret && %s)' % (all_eq, '' if pos else '!', called)),
                        ('different extents (non-empty operands): %s whatever the elements' % ('false' if pos else 'true'),
